@@ -19,6 +19,7 @@ func init() {
 	Register(&PropDef{ID: "C05", Run: func(c *Ctx) { runSeq(c, seqC05) }, Config: seqConfig})
 	Register(&PropDef{ID: "C18", Run: func(c *Ctx) { runSeq(c, seqC18) }, Config: seqConfig})
 	Register(&PropDef{ID: "C10", Run: func(c *Ctx) { runSeq(c, seqC10) }, Config: seqConfig})
+	Register(&PropDef{ID: "C13", Run: func(c *Ctx) { runSeq(c, seqC13) }, Config: seqConfig})
 }
 
 // seqConfig: sequential scenarios explore histories; the schedule of the
@@ -43,6 +44,7 @@ const (
 	seqC10
 	seqC11
 	seqC20
+	seqC13
 )
 
 var seqRoles = map[string]string{"alice": "admin", "bob": "user", "carol": "user", "dave": "guest", "": ""}
@@ -160,13 +162,15 @@ func genSeqOps(g *Rand, fl seqFlavour, nslots, n int, thorough bool) []SOp {
 			w = []int{2, 2, 6, 3, 8, 6, 3, 8, 5, 2, 3, 3}
 		case seqC11:
 			w = []int{2, 2, 6, 4, 7, 6, 4, 7, 5, 2, 3, 6}
+		case seqC13:
+			w = []int{1, 2, 0, 0, 0, 5, 1, 12, 6, 3, 10, 0, 8}
 		default:
 			w = []int{2, 3, 5, 3, 6, 6, 3, 7, 5, 2, 3, 0}
 		}
-		for len(w) < 12 {
+		for len(w) < 13 {
 			w = append(w, 0)
 		}
-		kind := []string{"join", "leave", "sub", "unsub", "pub", "reg", "unreg", "call", "yield", "inverr", "cancel", "meta"}[g.Weighted(w...)]
+		kind := []string{"join", "leave", "sub", "unsub", "pub", "reg", "unreg", "call", "yield", "inverr", "cancel", "meta", "sleep"}[g.Weighted(w...)]
 		op.Kind = kind
 		uniq++
 		switch kind {
@@ -239,7 +243,7 @@ func genSeqOps(g *Rand, fl seqFlavour, nslots, n int, thorough bool) []SOp {
 			if g.Chance(1, 5) || (fl == seqC12 && g.Chance(1, 3)) {
 				op.Opts["disclose_caller"] = true
 			}
-			if g.Chance(1, 6) {
+			if g.Chance(1, 6) || (fl == seqC13 && g.Chance(1, 3)) {
 				op.Opts["forward_timeout"] = true
 			}
 		case "unreg":
@@ -259,6 +263,9 @@ func genSeqOps(g *Rand, fl seqFlavour, nslots, n int, thorough bool) []SOp {
 			}
 			if g.Chance(1, 8) {
 				op.Opts["timeout"] = 100000
+			}
+			if fl == seqC13 && g.Chance(2, 3) {
+				op.Opts["timeout"] = []int{1, 2, 5, 100, 1000, 5000, 30000}[g.Intn(7)]
 			}
 			op.Args = wamp.List{fmt.Sprintf("c%d", uniq), uniq}
 			if g.Chance(1, 3) {
@@ -280,6 +287,8 @@ func genSeqOps(g *Rand, fl seqFlavour, nslots, n int, thorough bool) []SOp {
 			op.Var = g.Weighted(8, 2, 1)
 			op.URI = g.Pick("app.error.x", "wamp.error.canceled", "wamp.error.invalid_argument")
 			op.Args = wamp.List{fmt.Sprintf("e%d", uniq)}
+		case "sleep":
+			op.K = []int{1, 2, 5, 99, 100, 101, 1000, 5000, 30000, 90000}[g.Intn(10)]
 		case "meta":
 			genMeta(g, &op, nslots, fl)
 		case "cancel":
@@ -385,6 +394,10 @@ func runSeq(c *Ctx, fl seqFlavour) {
 	if fl == seqC05 {
 		q.IgnoreMeta = true
 		baseline = snapshotText(w)
+	}
+	if fl == seqC13 {
+		q.IgnoreMeta = true
+		mr.Lenient = true
 	}
 	if fl == seqC12 {
 		q.IgnoreMeta = true
